@@ -320,7 +320,24 @@ Section Keys.
 Variable ec_point_ok : N -> bytes -> bool.
 Variable ec_pub_of_priv : N -> bytes -> option bytes.
 
-Definition url_is (kd : keydata) (s : string) : bool := beq (kd_url kd) (bytes_of_string s).
+(* the type URLs as byte strings (computed here so that the extracted code
+   holds plain byte lists) *)
+Definition u_hmac : bytes := Eval vm_compute in bytes_of_string url_hmac.
+Definition u_aes_cmac : bytes := Eval vm_compute in bytes_of_string url_aes_cmac.
+Definition u_aes_gcm : bytes := Eval vm_compute in bytes_of_string url_aes_gcm.
+Definition u_aes_gcm_siv : bytes := Eval vm_compute in bytes_of_string url_aes_gcm_siv.
+Definition u_aes_ctr_hmac : bytes := Eval vm_compute in bytes_of_string url_aes_ctr_hmac.
+Definition u_aes_siv : bytes := Eval vm_compute in bytes_of_string url_aes_siv.
+Definition u_hkdf_prf : bytes := Eval vm_compute in bytes_of_string url_hkdf_prf.
+Definition u_hmac_prf : bytes := Eval vm_compute in bytes_of_string url_hmac_prf.
+Definition u_aes_cmac_prf : bytes := Eval vm_compute in bytes_of_string url_aes_cmac_prf.
+Definition u_ecdsa_pub : bytes := Eval vm_compute in bytes_of_string url_ecdsa_pub.
+Definition u_ecdsa_priv : bytes := Eval vm_compute in bytes_of_string url_ecdsa_priv.
+Definition u_rsa_pkcs1_pub : bytes := Eval vm_compute in bytes_of_string url_rsa_pkcs1_pub.
+Definition u_rsa_pss_pub : bytes := Eval vm_compute in bytes_of_string url_rsa_pss_pub.
+Definition u_unmodelled : list bytes := Eval vm_compute in map bytes_of_string unmodelled_urls.
+
+Definition url_is (kd : keydata) (u : bytes) : bool := beq (kd_url kd) u.
 
 Definition digest_size (h : N) : option N :=
   if h =? h_sha1 then Some dg_sha1
@@ -441,7 +458,7 @@ Definition parse_key (kd : keydata) (prefix idreq : N) : outcome pkd :=
   let v := kd_value kd in
   let fs := fields_or_nil v in
   let mat := kd_mat kd in
-  if url_is kd url_hmac then
+  if url_is kd u_hmac then
     if negb (wire_ok sch_params2 v) then Err else
     let p := get_sub 2 fs in
     let hash := get_u32 1 p in let tag := get_u32 2 p in let kl := blen (get_len 3 fs) in
@@ -451,24 +468,24 @@ Definition parse_key (kd : keydata) (prefix idreq : N) : outcome pkd :=
             | Some d => (hmac_min_key_parse <=? kl) && (hmac_min_tag_parse <=? tag) && (tag <=? d)
             end)
         (PHmac hash kl tag)
-  else if url_is kd url_aes_cmac then
+  else if url_is kd u_aes_cmac then
     if negb (wire_ok sch_params3 v) then Err else
     let tag := get_u32 1 (get_sub 3 fs) in let kl := blen (get_len 2 fs) in
     okb ((get_u32 1 fs =? 0) && variant_ok prefix idreq
          && ((kl =? cmac_key_a) || (kl =? cmac_key_b))
          && (cmac_min_tag <=? tag) && (tag <=? cmac_max_tag))
         (PAesCmac kl tag)
-  else if url_is kd url_aes_gcm then
+  else if url_is kd u_aes_gcm then
     if negb (mat =? km_symmetric) then Err else
     if negb (wire_ok sch_scalar v) then Err else
     let kl := blen (get_len 3 fs) in
     okb ((get_u32 1 fs =? 0) && variant_ok prefix idreq && aes_16_24_32 kl) (PAesGcm kl)
-  else if url_is kd url_aes_gcm_siv then
+  else if url_is kd u_aes_gcm_siv then
     if negb (mat =? km_symmetric) then Err else
     if negb (wire_ok sch_scalar v) then Err else
     let kl := blen (get_len 3 fs) in
     okb ((get_u32 1 fs =? 0) && variant_ok prefix idreq && aes_16_32 kl) (PAesGcmSiv kl)
-  else if url_is kd url_aes_ctr_hmac then
+  else if url_is kd u_aes_ctr_hmac then
     if negb (mat =? km_symmetric) then Err else
     if negb (wire_ok sch_ctr_hmac v) then Err else
     let ctr := get_sub 2 fs in let hm := get_sub 3 fs in
@@ -484,14 +501,14 @@ Definition parse_key (kd : keydata) (prefix idreq : N) : outcome pkd :=
             | Some d => (ctrhmac_min_tag <=? tag) && (tag <=? d)
             end)
         (PAesCtrHmac al iv hash hl tag)
-  else if url_is kd url_aes_siv then
+  else if url_is kd u_aes_siv then
     if negb (mat =? km_symmetric) then Err else
     if negb (wire_ok sch_scalar v) then Err else
     let kl := blen (get_len 2 fs) in
     okb ((get_u32 1 fs =? 0) && variant_ok prefix idreq
          && ((kl =? siv_k32) || (kl =? siv_k48) || (kl =? siv_k64)))
         (PAesSiv kl)
-  else if url_is kd url_hkdf_prf then
+  else if url_is kd u_hkdf_prf then
     if negb (prefix =? pt_raw) then Err else
     if negb (wire_ok sch_params2 v) then Err else
     let hash := get_u32 1 (get_sub 2 fs) in let kl := blen (get_len 3 fs) in
@@ -499,7 +516,7 @@ Definition parse_key (kd : keydata) (prefix idreq : N) : outcome pkd :=
          && match digest_size hash with None => false | Some _ => true end
          && (hkdf_min_key_parse <=? kl))
         (PHkdfPrf hash kl)
-  else if url_is kd url_hmac_prf then
+  else if url_is kd u_hmac_prf then
     if negb (prefix =? pt_raw) then Err else
     if negb (wire_ok sch_params2 v) then Err else
     let hash := get_u32 1 (get_sub 2 fs) in let kl := blen (get_len 3 fs) in
@@ -507,17 +524,17 @@ Definition parse_key (kd : keydata) (prefix idreq : N) : outcome pkd :=
          && match digest_size hash with None => false | Some _ => true end
          && (hmacprf_min_key_parse <=? kl))
         (PHmacPrf hash kl)
-  else if url_is kd url_aes_cmac_prf then
+  else if url_is kd u_aes_cmac_prf then
     if negb (prefix =? pt_raw) then Err else
     if negb (wire_ok sch_scalar v) then Err else
     let kl := blen (get_len 2 fs) in
     okb ((get_u32 1 fs =? 0) && ((kl =? cmacprf_key_a) || (kl =? cmacprf_key_b))) (PAesCmacPrf kl)
-  else if url_is kd url_ecdsa_pub then
+  else if url_is kd u_ecdsa_pub then
     if negb (mat =? km_public) then Err else
     if negb (wire_ok sch_params2 v) then Err else
     bind (ecdsa_pub_of fs prefix idreq) (fun r =>
       match r with (curve, hash, enc, pt) => Ok (PEcdsaPub curve hash enc pt) end)
-  else if url_is kd url_ecdsa_priv then
+  else if url_is kd u_ecdsa_priv then
     if negb (mat =? km_private) then Err else
     if negb (wire_ok sch_ecdsa_priv v) then Err else
     if negb (get_u32 1 fs =? 0) then Err else
@@ -533,7 +550,7 @@ Definition parse_key (kd : keydata) (prefix idreq : N) : outcome pkd :=
               end)
         end
       end)
-  else if url_is kd url_rsa_pkcs1_pub then
+  else if url_is kd u_rsa_pkcs1_pub then
     if negb (mat =? km_public) then Err else
     if negb (wire_ok sch_params2 v) then Err else
     let hash := get_u32 1 (get_sub 2 fs) in
@@ -542,7 +559,7 @@ Definition parse_key (kd : keydata) (prefix idreq : N) : outcome pkd :=
     okb ((get_u32 1 fs =? 0) && variant_ok prefix idreq && rsa_hash_ok hash
          && (rsa_min_bits_parse <=? bits) && rsa_exponent_parse_ok e)
         (PRsaPkcs1Pub bits e hash)
-  else if url_is kd url_rsa_pss_pub then
+  else if url_is kd u_rsa_pss_pub then
     if negb (mat =? km_public) then Err else
     if negb (wire_ok sch_params2 v) then Err else
     let p := get_sub 2 fs in
@@ -588,13 +605,13 @@ Definition prim_ok (d : pkd) : outcome bool :=
   end.
 
 Definition modelled_url (kd : keydata) : bool :=
-  url_is kd url_hmac || url_is kd url_aes_cmac || url_is kd url_aes_gcm
-  || url_is kd url_aes_gcm_siv || url_is kd url_aes_ctr_hmac || url_is kd url_aes_siv
-  || url_is kd url_hkdf_prf || url_is kd url_hmac_prf || url_is kd url_aes_cmac_prf
-  || url_is kd url_ecdsa_pub || url_is kd url_ecdsa_priv
-  || url_is kd url_rsa_pkcs1_pub || url_is kd url_rsa_pss_pub.
+  url_is kd u_hmac || url_is kd u_aes_cmac || url_is kd u_aes_gcm
+  || url_is kd u_aes_gcm_siv || url_is kd u_aes_ctr_hmac || url_is kd u_aes_siv
+  || url_is kd u_hkdf_prf || url_is kd u_hmac_prf || url_is kd u_aes_cmac_prf
+  || url_is kd u_ecdsa_pub || url_is kd u_ecdsa_priv
+  || url_is kd u_rsa_pkcs1_pub || url_is kd u_rsa_pss_pub.
 Definition unmodelled_url (kd : keydata) : bool :=
-  existsb (fun s => url_is kd s) unmodelled_urls.
+  existsb (fun u => url_is kd u) u_unmodelled.
 
 (* ------------------------------------------------------------------ *)
 (* keyset/handle.go keysetToEntries + newFromEntries                   *)
